@@ -20,7 +20,7 @@ RULE = ("Histories of 2-6 operations over one shared cache directory: run(inputs
         "with caching disabled. Invariant after every run: returned rows (all output columns, NaN==None==absent) and "
         "stats equal the cache-off result; no exception escapes. Crash points enumerated: for one cached batch EVERY "
         "byte prefix of its cache file through CacheManager.load_cache (must be miss-or-identical) and a stride of "
-        "prefixes end-to-end through rebalance. Non-trivial = history with >=1 cache hit after a configuration change "
+        "prefixes end-to-end through rebalance. A crash matrix puts 4-5 cached batches into one directory and, for every entry x 7 crash states of that entry (deleted, empty, half, leftover temp file empty / partial / complete, complete temp file without final file), re-runs all batches. Non-trivial = history with >=1 cache hit after a configuration change "
         "or >=1 run after a crash state; distinct = distinct histories / prefixes.")
 ASSUMPTIONS = [
     "crash model: a kill during a cache write leaves the file absent, empty, a byte prefix of the final content, or a "
@@ -254,11 +254,82 @@ def check_prefix(case, spec=None):
     return res
 
 
+def check_matrix(case, spec=None):
+    """several cached batches in one directory; for every entry x every crash state of that entry (incl. a leftover
+    temporary file that is empty / partial / complete) re-run ALL batches and compare each with its cache-off result."""
+    res = CaseResult()
+    batches, t = case["batches"], case.get("threshold", 0)
+    cache_dir = tempfile.mkdtemp(prefix="synverif-c12m-", dir="/var/tmp")
+    n_eval = 0
+    try:
+        refs = [reference(b, None, t, "reaction") for b in batches]
+        if any(pipe.is_timeout_issue(r) for rr, _ in refs for r in rr):
+            res.inconclusive = "timeout text"
+            return res
+        for b in batches:
+            run(b, None, t, "reaction", cache_dir)
+        files = sorted(glob.glob(os.path.join(cache_dir, "*.cache")))
+        if len(files) != len(set(map(tuple, batches))):
+            res.fail("cache-entries-missing", "cache written", n_files=len(files), batches=batches)
+            return res
+        originals = {f: open(f, "rb").read() for f in files}
+        states = ["delete", "empty", "truncate-half", "tmp-empty", "tmp-partial", "tmp-complete", "tmp-complete+final-missing"]
+        for f in files:
+            for state in states:
+                raw = originals[f]
+                if state == "delete":
+                    os.remove(f)
+                elif state == "empty":
+                    open(f, "wb").close()
+                elif state == "truncate-half":
+                    open(f, "wb").write(raw[: len(raw) // 2])
+                elif state == "tmp-empty":
+                    open(f + ".tmp", "wb").close()
+                elif state == "tmp-partial":
+                    open(f + ".tmp", "wb").write(raw[: len(raw) // 3])
+                elif state == "tmp-complete":
+                    open(f + ".tmp", "wb").write(raw)
+                elif state == "tmp-complete+final-missing":
+                    open(f + ".tmp", "wb").write(raw)
+                    os.remove(f)
+                for k, b in enumerate(batches):
+                    n_eval += 1
+                    detail = dict(state=state, crashed_entry=sorted(files).index(f), batch=k, batches=batches)
+                    try:
+                        rows, stats = run(b, None, t, "reaction", cache_dir)
+                    except Exception as e:
+                        res.fail("matrix-run-raises:" + type(e).__name__, "no exception", error=str(e)[:200], **detail)
+                        return res
+                    compare(res, rows, stats, refs[k][0], refs[k][1], detail, ":matrix:" + state.split("-")[0])
+                    if res.failures:
+                        return res
+                    res.nt_keys.append(case_key([batches, state, sorted(files).index(f), k]))
+                # restore the directory to the clean cached state
+                for g in glob.glob(os.path.join(cache_dir, "*")):
+                    os.remove(g)
+                for g, raw_g in originals.items():
+                    open(g, "wb").write(raw_g)
+        res.tag("matrix-entries:%d" % len(files))
+    finally:
+        shutil.rmtree(cache_dir, ignore_errors=True)
+    res.evals = max(1, n_eval)
+    res.nontrivial = True
+    return res
+
+
+MATRIX_BATCHES = [
+    [["CCO>>CC=O", "CC(=O)OC.O>>CC(=O)O"], ["CCBr.[OH-]>>CCO"], ["CC(=O)OCC.O>>CC(=O)O", "CCO>>CCO", "C=C>>CC"],
+     ["c1ccccc1C(=O)Cl.N>>c1ccccc1C(N)=O"], ["CC(C)=O>>CC(C)O", "CCCO>>CCC=O"]],
+]
+
+
 def shards(tier):
     q = tier == "quick"
     out = [{"name": "hyp-histories:%d" % i, "kind": "hyp", "examples": 30 if q else 400} for i in range(13)]
     for i in range(3):
         out.append({"name": "crash-prefixes:%d" % i, "kind": "prefix", "which": i, "stride": 1})
+    for i in range(2):
+        out.append({"name": "crash-matrix:%d" % i, "kind": "matrix", "which": i, "weight": 5000})
     return out
 
 
@@ -272,6 +343,14 @@ PREFIX_INPUTS = [
 def run_shard(spec, seed, tier, shard):
     if spec["kind"] == "hyp":
         explore(shard, history_case(), check_history, spec["examples"], seed)
+    elif spec["kind"] == "matrix":
+        if spec["which"] == 0:
+            c = {"batches": MATRIX_BATCHES[0], "threshold": 0}
+        else:
+            mp = list(gen.mcs_prone_reactions(22, 3)[40:46])
+            c = {"batches": [mp[0:2], mp[2:3], mp[3:5], mp[5:6]], "threshold": 0.9}
+        shard.add(c, check_matrix(c), 0)
+        shard.exhaustive = True
     else:
         inputs, bs, t = PREFIX_INPUTS[spec["which"]]
         c = {"inputs": inputs, "batch_size": bs, "threshold": t, "stride": 1}
@@ -292,6 +371,8 @@ def shrink_shard(spec, seed, tier, bucket, index, cap_s):
 def replay(case, spec):
     if "ops" in case:
         return check_history(case).failures
+    if "batches" in case:
+        return check_matrix(case).failures
     return check_prefix(case).failures
 
 
